@@ -123,7 +123,8 @@ class SockRunner:
         line = 'sock %s %s' % (name, ' '.join('%s=%s' % (k, pv(v)) for k, v in args.items()))
         try:
             o = getattr(self.s, name)(**args)
-            res = 'ok ' + ' '.join(str(getattr(o, f)) for f in fields)
+            # canonical form: bool is an int in Python (True == 1); never compare the spelling
+            res = 'ok ' + ' '.join(str(int(v)) if isinstance(v, bool) else str(v) for v in (getattr(o, f) for f in fields))
         except Exception as e:
             res = 'exc %s' % type(e).__name__
         self.line(line.rstrip(), res)
